@@ -232,7 +232,7 @@ class Trunc(ReadBase):
                 blk = rng.choice(['w', '512', '10240'])
                 ops = [f'make fmt=raw filt={filt} seed={seed} n=1', f'run blk={blk} src={src} cons=A trunc=- fault=- raw=1']
                 for _ in range(6 if tier == 'quick' else 60):
-                    ops.append(f'run blk={blk} src={src} cons=A trunc={rng.randrange(0, 160000)} fault=- raw=1')
+                    ops.append(f'run blk={blk} src={src} cons=A trunc={rng.randrange(64, 160000)} fault=- raw=1')   # below the filter's signature length the cut stream is simply raw data
                 yield Case(f'trunc:raw:{filt}', ops)
 
 
